@@ -9,6 +9,7 @@ import (
 	"os"
 
 	quic "github.com/refraction-networking/uquic"
+	"github.com/refraction-networking/uquic/internal/ackhandler"
 	"github.com/refraction-networking/uquic/internal/handshake"
 	"github.com/refraction-networking/uquic/internal/protocol"
 	u "github.com/refraction-networking/uquic/internal/verifutil"
@@ -26,6 +27,9 @@ func runProtect(w *bufio.Writer, seed uint64, n int, _ []string) {
 	dist := map[string]int{}
 	for i := 0; i < n; i++ {
 		ppProtCase(w, r.Fork(), dist, i, i%2 == 0)
+	}
+	for i := 0; i < n; i++ {
+		ppPackCase(w, r.Fork(), dist, i)
 	}
 	ppRFCVectors(w)
 	ppPrintDist(w, dist)
@@ -164,6 +168,12 @@ func ppProtCase(w *bufio.Writer, r *u.Rng, dist map[string]int, caseNo int, long
 			fmt.Fprintf(w, "MONFAIL\tprotect/bytes-outside-hp\theader protection changed bytes other than the first byte and the packet number\t%s\n", ctx)
 		}
 		mask := e.encMask(lg.HPSample)
+		if !long {
+			if k := e.ua.ChaChaHPKeyEnc(); k != nil && len(lg.HPSample) == 16 {
+				fmt.Fprintf(w, "CASE 1 %s\n", u.App("ChaChaMaskCase", u.Hex(k), u.Hex(lg.HPSample), u.Hex(mask)))
+				dist["chacha-mask"]++
+			}
+		}
 		fmt.Fprintf(w, "CASE 1 %s\n", u.App("ProtCase", ppB(long), u.Hex(hdr), u.Hex(payload), u.Z(pn), u.Z(kp), u.Z(int64(pnLen)),
 			u.Hex(lg.SealCT), u.Hex(lg.HPSample), u.Hex(mask), u.Hex(pkt)))
 		dist[fmt.Sprintf("prot-%v-pnlen%d", map[bool]string{true: "long", false: "short"}[long], pnLen)]++
@@ -439,5 +449,194 @@ func ppRFCVectors(w *bufio.Writer) {
 			fmt.Fprintf(w, "MONFAIL\tprotect/rfc-open-%s\tthe RFC's protected server Initial does not open to the RFC's payload (class %d)\t%s\n", vc.name, cls, vc.name)
 		}
 		fmt.Fprintf(w, "INFO\tRFC Appendix A vectors checked for %s\n", vc.name)
+	}
+}
+
+// ppPackCase: the packer's call sites.  Packet number and its length come from a real
+// sentPacketHandler (PeekPacketNumber -> PacketNumberLengthForHeader(pn, largestAcked)), the
+// packet is built by the real appendShortHeaderPacket / getLongHeader + appendLongHeaderPacket
+// (padding of short payloads, ACK before padding before frames) and opened by the real
+// unpacker whose opener has seen a packet number between largestAcked and pn.
+func ppPackCase(w *bufio.Writer, r *u.Rng, dist map[string]int, caseNo int) {
+	var ctx string
+	defer func() {
+		if e := recover(); e != nil {
+			fmt.Fprintf(w, "MONFAIL\tprotect/pack-panic\tpanic: %v\t%s\n", e, ctx)
+		}
+	}()
+	long := caseNo%3 == 0
+	version := protocol.Version1
+	if r.Bool() {
+		version = protocol.Version2
+	}
+	// (largestAcked, pn) around the length boundaries; fixed table first, then random
+	gaps := []int64{1, 2, 1<<15 - 1, 1 << 15, 1<<15 + 1, 1<<23 - 1, 1 << 23, 1<<23 + 1, 1 << 30}
+	gap := gaps[caseNo%len(gaps)]
+	if caseNo >= 2*len(gaps) {
+		gap = int64(1)<<uint(r.Intn(31)) + int64(r.Intn(3)) - 1
+		if gap < 1 {
+			gap = 1
+		}
+	}
+	la := int64(r.Pick(-1, -1, 0, 5, 1<<16, 1<<32))
+	pn := la + gap
+	if pn < 0 {
+		pn = 0
+	}
+	pers := protocol.PerspectiveClient
+	if r.Bool() {
+		pers = protocol.PerspectiveServer
+	}
+	encLevel := protocol.Encryption1RTT
+	if long {
+		encLevel = []protocol.EncryptionLevel{protocol.EncryptionInitial, protocol.EncryptionHandshake, protocol.Encryption0RTT}[r.Intn(3)]
+	}
+	sph := quic.VerifProtNewSPH(pn, pers)
+	ackhandler.VerifPPSetNextPN(sph, encLevel, protocol.PacketNumber(pn))
+	ackhandler.VerifPPSetLargestAcked(sph, encLevel, protocol.PacketNumber(la))
+	// payload shapes: fixed table of the short ones (0..4 PINGs with/without ACK), then random
+	nPing := caseNo % 5
+	withAck := caseNo%2 == 1
+	if caseNo >= 20 {
+		nPing = r.Range(0, 30)
+		withAck = r.Chance(1, 3)
+	}
+	if nPing == 0 {
+		withAck = true
+	}
+	var ack *wire.AckFrame
+	if withAck {
+		lo := int64(r.Intn(60))
+		ack = &wire.AckFrame{AckRanges: []wire.AckRange{{Smallest: protocol.PacketNumber(lo), Largest: protocol.PacketNumber(lo + int64(r.Intn(5)))}}}
+	}
+	extra := int(r.Pick(0, 0, 0, 1, 7))
+	e := &ppEnds{long: long}
+	dcid := protocol.ParseConnectionID(r.Bytes(r.Range(0, 20)))
+	scid := protocol.ParseConnectionID(r.Bytes(r.Range(0, 20)))
+	var token []byte
+	var kp protocol.KeyPhaseBit = protocol.KeyPhaseZero
+	if long {
+		other := protocol.PerspectiveServer
+		if pers == protocol.PerspectiveServer {
+			other = protocol.PerspectiveClient
+		}
+		e.sealer, _ = handshake.NewInitialAEAD(dcid, pers, version)
+		_, e.lopener = handshake.NewInitialAEAD(dcid, other, version)
+		e.encMask = func(s []byte) []byte { return handshake.VerifRawMaskLongSealer(e.sealer, s) }
+		e.decMask = func(s []byte) []byte { return handshake.VerifRawMaskLongOpener(e.lopener, s) }
+		e.largest = func() int64 { return handshake.VerifLongOpenerHighestRcvd(e.lopener) }
+		if encLevel == protocol.EncryptionInitial {
+			token = r.Bytes(int(r.Pick(0, 0, 3, 40)))
+		}
+	} else {
+		suites := handshake.VerifCipherSuiteIDs()
+		e.ua, e.ub = handshake.VerifNewUAEADPair(suites[r.Intn(len(suites))], version, r.Bytes(32), r.Bytes(32), 0, 0)
+		e.sealer, e.sopener = e.ua.Sealer(), e.ub.Opener()
+		e.cidLen = dcid.Len()
+		e.encMask, e.decMask = e.ua.RawMaskEnc, e.ub.RawMaskDec
+		e.largest = e.ub.VerifHighestRcvd
+	}
+	ctx = fmt.Sprintf("long=%v %v level=%v pn=%d largestAcked=%d pings=%d ack=%v extra=%d", long, version, encLevel, pn, la, nPing, withAck, extra)
+	var res quic.VerifProtPacked
+	var err error
+	if long {
+		res, err = quic.VerifProtPackLong(sph, e.sealer, encLevel, dcid, scid, token, ack, nPing, extra, version)
+	} else {
+		res, err = quic.VerifProtPackShort(sph, e.sealer, dcid, kp, ack, nPing, extra, version)
+	}
+	if err != nil {
+		fmt.Fprintf(w, "MONFAIL\tprotect/pack-error\tpacker returned %v\t%s\n", err, ctx)
+		return
+	}
+	pnUsed := res.PN // the skipping generator may have skipped pn itself
+	hdr := res.Log.SealAD
+	pt := res.Log.SealPT
+	// ---- monitors (model independent) ----
+	if res.PNLen+len(pt) < 4 {
+		fmt.Fprintf(w, "MONFAIL\tprotect/pack-padding\tpacket number (%d bytes) and payload (%d bytes) are shorter than 4 bytes: no header protection sample\t%s\n", res.PNLen, len(pt), ctx)
+	}
+	wantPadding := max(0, 4-res.PNLen-len(res.Ack)-len(res.Frames)) + extra
+	want := append(append(append([]byte{}, res.Ack...), make([]byte, wantPadding)...), res.Frames...)
+	if !bytes.Equal(pt, want) {
+		fmt.Fprintf(w, "MONFAIL\tprotect/pack-payload\tsealed payload %x is not ACK | padding(%d) | frames = %x\t%s\n", pt, wantPadding, want, ctx)
+	}
+	// receiver state: it has processed some packet between largestAcked and pn
+	lg := la
+	if lg < 0 {
+		lg = 0
+	}
+	if pnUsed > lg+1 && r.Bool() {
+		lg += int64(r.U64() % uint64(pnUsed-lg))
+	}
+	if lg > 0 {
+		// move the opener there with a 4-byte packet number (only possible below 2^31 from 0)
+		if lg < 1<<31 {
+			var wl quic.VerifProtLog
+			var whdr []byte
+			if long {
+				h := &wire.ExtendedHeader{Header: wire.Header{Type: protocol.PacketTypeHandshake, DestConnectionID: dcid, SrcConnectionID: scid, Version: version, Length: protocol.ByteCount(4 + 3 + 16)},
+					PacketNumber: protocol.PacketNumber(lg), PacketNumberLen: 4}
+				whdr, _ = h.Append(nil, version)
+			} else {
+				whdr, _ = wire.AppendShortHeader(nil, dcid, protocol.PacketNumber(lg), 4, kp)
+			}
+			wp := quic.VerifProtEncrypt(e.sealer, whdr, []byte{1, 1, 1}, protocol.PacketNumber(lg), 4, &wl)
+			var wl2 quic.VerifProtLog
+			if _, _, _, cls := e.unpack(wp, &wl2); cls != quic.VerifProtOK {
+				fmt.Fprintf(w, "INFO\tpack case: warm-up packet rejected (class %d) %s\n", cls, ctx)
+				return
+			}
+		} else {
+			lg = 0
+		}
+	}
+	largest := e.largest()
+	tcode := int64(hdr[0]>>4) & 3
+	mid := hdr[1 : len(hdr)-res.PNLen]
+	mask := e.encMask(res.Log.HPSample)
+	fmt.Fprintf(w, "CASE 1 %s\n", u.App("PackCase", ppB(long), u.Z(tcode), u.Z(0), u.Hex(mid), u.Z(pnUsed), u.Z(la), u.Hex(res.Ack), u.Hex(res.Frames), u.Z(int64(extra)),
+		u.Hex(res.Log.SealCT), u.Hex(res.Log.HPSample), u.Hex(mask), u.Z(int64(res.PNLen)), u.Hex(res.Packet)))
+	dist[fmt.Sprintf("pack-%v-pnlen%d-payload%s", map[bool]string{true: "long", false: "short"}[long], res.PNLen, map[bool]string{true: "<4", false: ">=4"}[len(res.Ack)+len(res.Frames) < 4])]++
+	if long {
+		// the datagram level: coalesced bytes behind the packet; wire.ParsePacket must cut out exactly the packet
+		rest := r.Bytes(int(r.Pick(0, 0, 1, 9)))
+		var l3 quic.VerifProtLog
+		// a fresh opener with the same receive state is not needed: parse only (class of the unpack is monitored below)
+		dg := append(append([]byte{}, res.Packet...), rest...)
+		h, pktOnly, restGo, perr := wire.ParsePacket(dg)
+		_ = l3
+		if perr != nil || !bytes.Equal(pktOnly, res.Packet) || !bytes.Equal(restGo, rest) {
+			fmt.Fprintf(w, "MONFAIL\tprotect/pack-parsepacket\twire.ParsePacket did not cut the packet the packer built out of the datagram (err %v, %d of %d bytes)\t%s\n", perr, len(pktOnly), len(res.Packet), ctx)
+		} else {
+			if h.DestConnectionID != dcid || h.SrcConnectionID != scid || h.Version != version || !bytes.Equal(h.Token, token) ||
+				int(h.Length) != res.PNLen+len(pt)+e.sealer.Overhead() {
+				fmt.Fprintf(w, "MONFAIL\tprotect/pack-header-fields\tunprotected header fields differ from what the packer was given (length %d)\t%s\n", h.Length, ctx)
+			}
+			fmt.Fprintf(w, "CASE 1 %s\n", u.App("LongDgCase", u.Z(int64(h.Type)), u.ZU(uint64(version)), u.Hex(scid.Bytes()), u.Hex(dcid.Bytes()), u.Hex(token),
+				u.Z(pnUsed), u.Z(la), u.Hex(res.Ack), u.Hex(res.Frames), u.Z(int64(extra)), u.Hex(res.Log.SealCT), u.Hex(res.Log.HPSample), u.Hex(mask),
+				u.Hex(res.Packet), u.Hex(rest), u.Z(int64(h.ParsedLen())), u.Z(int64(len(pktOnly))), u.Z(int64(h.Length))))
+			dist["pack-long-datagram"]++
+		}
+	}
+	// open it with the real unpacker; replay the unpacker in the model (UnprotCase)
+	var l2 quic.VerifProtLog
+	up, hdrLen, pktLen, cls := e.unpack(res.Packet, &l2)
+	inGuarantee := la <= largest && largest <= pnUsed && pnUsed-la <= 1<<31
+	if inGuarantee && (cls != quic.VerifProtOK || up.PN != pnUsed || up.PNLen != res.PNLen || !bytes.Equal(up.Payload, pt)) {
+		fmt.Fprintf(w, "MONFAIL\tprotect/pack-roundtrip\tpacket built by the packer did not open to the same packet number and payload (class %d, pn %d, pnLen %d, payload %x; receiver largest %d)\t%s\n",
+			cls, up.PN, up.PNLen, up.Payload, largest, ctx)
+	}
+	if cls != quic.VerifProtOuterHeader && cls != quic.VerifProtOther && l2.HPCalls > 0 {
+		call, ores, rs := "None", "None", "None"
+		if l2.OpenCalls > 0 {
+			call = u.Opt(true, u.Pair(u.Z(l2.OpenPN), u.Z(int64(l2.OpenKP)), u.Hex(l2.OpenAD), u.Hex(l2.OpenCT)))
+			if l2.OpenOK {
+				ores = u.Opt(true, u.Hex(l2.OpenPT))
+			}
+		}
+		if cls == quic.VerifProtOK {
+			rs = u.Opt(true, u.Pair(u.Z(int64(up.FirstByte)), u.Z(up.PN), u.Z(int64(up.PNLen)), u.Z(int64(up.KP)), u.Hex(up.Payload)))
+		}
+		fmt.Fprintf(w, "CASE 1 %s\n", u.App("UnprotCase", ppB(long), u.Z(int64(hdrLen)), u.Z(largest), u.Hex(res.Packet[:pktLen]), u.Hex(l2.HPSample), u.Hex(e.decMask(l2.HPSample)), call, ores, u.Z(int64(cls)), rs))
 	}
 }
